@@ -122,7 +122,11 @@ func c02MapModel(maxPre, steps int) {
 		key := c02Keys[rt.Choice(tag+".key", len(c02Keys))]
 		e := model[key]
 		vis := c02Visible(e, now)
-		switch rt.Choice(tag, 10) {
+		nOps := 10
+		if steps > 1 {
+			nOps = 9 // (histories of two operations: without the batch put)
+		}
+		switch rt.Choice(tag, nOps) {
 		case 9: // batch put of a live record, or of the deleted version of a record
 			r := &c02Rec{N: rt.I64(tag + ".N")}
 			r.SetKey("t:" + key)
